@@ -157,7 +157,7 @@ def check_dispatch(res, repo):
     check_converters("C19", res, repo)
     from ..ownership import check_raw_copies
 
-    check_raw_copies("C19", res, repo, want=("method",))
+    check_raw_copies("C19", res, repo, want=("method", "validate"))
 
 
 def check_converters(prop, res, repo, rule="R-DISPATCH"):
